@@ -35,6 +35,7 @@ RULE = ("rules = 1..3 detections (maps, lists of maps, keyword lists, plain valu
         "; values incl. timestamp-part modifiers and non-ASCII base64 payloads; plus drift-only probes behind a drop pipeline (vanished operands)"
         "; a stream where the backend class converted another rule (negations, all string operators) before the probed one; configurations without case-sensitive templates")
 RULE += "; round 4: values with a literal (escaped) '?' next to wildcard characters"
+RULE += "; round 5: cased values rendered through a `{regex}` template (read back strictly: an unescaped operator is no literal), values with regular-expression operators, field names containing / starting with the target's quote and escape characters, long spellings of the regex flag modifiers"
 ASSUMPTIONS = [
     "atoms are independent boolean variables identified by (field, match kind, decoded value): equivalence is judged as boolean functions of these",
     "the emitted text is tokenised by harness/qsyntax.py for a fixed unambiguous template syntax (string/field escaping itself is C05's subject)",
